@@ -2,7 +2,7 @@
    Property theorems only; the model is Bac.Net (no proofs), the proofs live in Bac.NetFacts.
    Local theorems hold for EVERY node state, adapter, and arriving frame of the model.  `Fwd` marks the copies made
    by the forwarding section of process_npdu (netservice.py:607-676), `Tx` every other frame a node emits. *)
-From Bac Require Import Base Net NetFacts NetTerm.
+From Bac Require Import Base Net NetFacts NetTerm NetTerm2 NetReply NetOnce.
 Open Scope N_scope.
 
 (* each router hop lowers the hop count by exactly one, and keeps payload and message type *)
@@ -124,12 +124,9 @@ Theorem C06_pending_released_once : forall n i ai src dst d l n' acts,
 Proof. exact i_am_releases_parked. Qed.
 Print Assumptions C06_pending_released_once.
 
-(* termination of forwarding, per step: every copy made has a strictly smaller hop count and at most
-   (number of adapters + 1) copies are made, so the multiset of hop counts of application copies in flight
-   decreases in the multiset order on any topology.  PARTIAL: the global statement (a run of the internetwork
-   reaches quiescence) is not derived here; see C06_global_broadcast_terminates for global broadcasts and the
-   simulation for the rest. *)
-Theorem C06_forwarding_terminates_partial : forall n i src dst p n' acts,
+(* termination of forwarding, per step and for every destination kind: every copy made has a strictly smaller
+   hop count and at most (number of adapters + 1) copies are made *)
+Theorem C06_forwarding_step_decreases : forall n i src dst p n' acts,
   process_npdu n i src dst p = (n', acts) ->
   (length (filter is_fwd acts) <= S (length (adapters n)))%nat /\
   forall j d q, In (Fwd j d q) acts -> n_hop q < n_hop p.
@@ -138,7 +135,57 @@ Proof.
   intros j d q Hin. destruct (thm_hop_decrement _ _ _ _ _ _ _ _ _ _ H Hin) as (_ & E & _).
   rewrite <- E. apply N.lt_add_pos_r. reflexivity.
 Qed.
-Print Assumptions C06_forwarding_terminates_partial.
+Print Assumptions C06_forwarding_step_decreases.
+
+(* ... and globally: on EVERY topology (cycles, wrong or looping routes included), if the frames in flight are
+   application-layer messages and every router has *some* path — a directly connected network or a cached next
+   hop — for each remote network they are addressed to (so that no path discovery starts), the internetwork
+   reaches quiescence.  Measure: sum over the frames in flight of K^(hop+1) (1 for last-leg frames),
+   K = 1 + max LAN size * (1 + max adapters).  The hypothesis is preserved by the run because learning from
+   SADRs never removes a cache entry. *)
+Theorem C06_forwarding_terminates : forall w,
+  Forall app_frame (queue w) ->
+  (forall f d wn, In f (queue w) -> target (f_npdu f) = Some d -> In wn (nodes w) -> routable (w_node wn) d) ->
+  exists k, queue (run k w) = [].
+Proof. exact forwarding_terminates. Qed.
+Print Assumptions C06_forwarding_terminates.
+
+(* at most once, globally, for unicasts, on EVERY topology: a link-unicast application frame (routed towards a
+   remote station, or on its last leg) that is alone in flight never multiplies, and over the whole run at most
+   one PDU is handed to any application (and then the run is over).  Hypotheses: distinct link addresses on each
+   LAN; every router has some path for the destination network.  Together with
+   C06_local_unicast_only_addressee this is "the addressed station and nobody else, at most once"; that it does
+   arrive needs correct caches on a loop-free topology (not proved universally; simulation). *)
+Theorem C06_unicast_at_most_once : forall k w f,
+  queue w = [f] -> uni_frame f -> lans_distinct (lans w) (nodes w) ->
+  (forall d, target (f_npdu f) = Some d -> all_routable (nodes w) d) ->
+  exists osn, trace (run k w) = osn ++ trace w /\ (ups osn <= 1)%nat /\
+              (length (queue (run k w)) <= 1)%nat /\
+              (ups osn = 1%nat -> queue (run k w) = []).
+Proof. exact unicast_at_most_once. Qed.
+Print Assumptions C06_unicast_at_most_once.
+
+(* the mechanism that stops a packet which has gone round a cycle back to a router of its source network *)
+Theorem C06_spoof_dropped : forall n i src dst p snet sm j,
+  n_sadr p = Some (snet, sm) -> find_net n (Some snet) = Some j ->
+  modelled_config n = true -> nth_adapter n i <> None ->
+  process_npdu n i src dst p = (n, []).
+Proof. exact spoof_dropped. Qed.
+Print Assumptions C06_spoof_dropped.
+
+(* reply routability, first hop (PARTIAL for C06_reply_routable: the remaining hops are the tree theorems):
+   a station that was handed a routed packet showing source (sn, sm) has learned from that packet that sn is
+   reached through the delivering router, and its reply to the source shown leaves at once for that router with
+   DADR = the source shown and a full hop count *)
+Theorem C06_reply_routable_partial : forall n a src dst p n' acts sn sm d x data,
+  adapters n = [a] ->
+  process_npdu n 0 src dst p = (n', acts) ->
+  n_sadr p = Some (sn, sm) -> In (Up (ARS sn sm) d x) acts ->
+  a_net a <> Some sn -> pending_get (pending n) sn = None ->
+  indication n' (ARS sn sm) data
+  = (n', [Tx 0 (LStation src) (mkNpdu (Some (DStation sn sm)) None 255 None data)]).
+Proof. exact reply_goes_back_via_delivering_router. Qed.
+Print Assumptions C06_reply_routable_partial.
 
 (* forwarding of global broadcasts terminates on EVERY topology — cycles, wrong caches, any node state: whenever
    all frames in flight are application-layer global broadcasts the internetwork reaches quiescence
@@ -194,6 +241,30 @@ Example C06_ring_global_broadcast_example :
   map (fun o => match o with OUp who _ _ _ => who | _ => 0%nat end)
       (filter (fun o => match o with OUp _ _ _ _ => true | _ => false end) (rev (trace w))) = [4; 5; 5; 4]%nat.
 Proof. vm_compute. repeat split. repeat constructor. Qed.
+
+(* the hypotheses of C06_forwarding_terminates on a cycle with looping routes: the three ring routers each
+   believe network 9 lies behind the next one; a unicast to network 9 is in flight, every router is `routable`,
+   and the run does stop (here the SADR check drops it when it comes back to a router of network 1) *)
+Definition ring3_looping : world :=
+  mkWorld
+    [mkW (mkNode [mkAd (Some 1) (Some [101]); mkAd (Some 2) (Some [101])] false [((Some 2, 9), [102])] []) [(1, [101]); (2, [101])];
+     mkW (mkNode [mkAd (Some 2) (Some [102]); mkAd (Some 3) (Some [102])] false [((Some 3, 9), [103])] []) [(2, [102]); (3, [102])];
+     mkW (mkNode [mkAd (Some 3) (Some [103]); mkAd (Some 1) (Some [103])] false [((Some 1, 9), [101])] []) [(3, [103]); (1, [103])];
+     mkW (mkNode [mkAd (Some 1) (Some [1])] true [((Some 1, 9), [101])] []) [(1, [1])]]
+    [(1, [(0, 0); (2, 1); (3, 0)]%nat); (2, [(0, 1); (1, 0)]%nat); (3, [(1, 1); (2, 0)]%nat)]
+    [] [].
+Example C06_forwarding_terminates_example :
+  let w := submit ring3_looping 3 (ARS 9 [5]) [16; 99; 1] in
+  world_routableb w = true /\ length (queue w) = 1%nat /\ queue (run 10 w) = [] /\ queue (run 2 w) <> [].
+Proof. vm_compute. repeat split. discriminate. Qed.
+
+(* ... and the hypotheses of C06_unicast_at_most_once hold for it as well (through their decidable forms) *)
+Example C06_unicast_at_most_once_example :
+  let w := submit ring3_looping 3 (ARS 9 [5]) [16; 99; 1] in
+  exists f, queue w = [f] /\ uni_frameb f = true /\ lans_distinctb (lans w) (nodes w) = true /\
+            world_routableb w = true.
+Proof. eexists. vm_compute. repeat split. Qed.
+(* on the warm tree the unicast is in fact delivered: exactly one Up (C06_tree_unicast_example below) *)
 
 (* a four-network tree (routers R0: nets 1,2,3; R1: nets 3,4) with correct caches: unicast, remote broadcast and
    global broadcast from the station on network 1 are delivered exactly once to exactly the right stations *)
